@@ -3,10 +3,43 @@
 From Coq Require Import String Ascii.
 From Coq Require Import List NArith ZArith Bool.
 Import ListNotations.
-From TarpcV Require Import Base Schema Wire Framing Shipped.
+From TarpcV Require Import Base Schema Wire JsonText Framing Shipped.
 
 Definition case := (cfg * list op * list (list obs))%type.
 Definition model (c : case) : list (list obs) := let '(cf, ops, _) := c in fst (run cf ops).
+(* two independent parsers of the JSON subset must agree on every hand-written Json payload: the
+   Gallina parser (JsonText.json_parse, which the model decodes with) and the harness's own small
+   parser, whose tree is the second argument of SendRaw *)
+Fixpoint jv_eqb (a b : jv) {struct a} : bool :=
+  match a, b with
+  | JNull, JNull => true
+  | JBool x, JBool y => Bool.eqb x y
+  | JNum x, JNum y => Z.eqb x y
+  | JStr x, JStr y => bytes_eqb x y
+  | JArr x, JArr y =>
+    (fix go (x y : list jv) : bool :=
+       match x, y with
+       | [], [] => true
+       | p :: x', q :: y' => jv_eqb p q && go x' y'
+       | _, _ => false
+       end) x y
+  | JObj x, JObj y =>
+    (fix go (x y : list (string * jv)) : bool :=
+       match x, y with
+       | [], [] => true
+       | (k, p) :: x', (k', q) :: y' => String.eqb k k' && jv_eqb p q && go x' y'
+       | _, _ => false
+       end) x y
+  | _, _ => false
+  end.
+Definition parsers_agree (cf : cfg) (ops : list op) : bool :=
+  match codec cf with
+  | TJson =>
+    forallb (fun o => match o with
+                      | SendRaw p t => option_eqb jv_eqb (json_parse p) t
+                      | _ => true end) ops
+  | _ => true
+  end.
 Definition check (c : case) : N :=
   let '(cf, ops, tr) := c in
-  verdict (list_eqb (list_eqb obs_eqb) (fst (run cf ops)) tr) (c15_ok cf ops tr).
+  verdict (list_eqb (list_eqb obs_eqb) (fst (run cf ops)) tr && parsers_agree cf ops) (c15_ok cf ops tr).
